@@ -86,8 +86,10 @@ class SmoothFunction(Function):
         see [1, Theorem 3.10].
         """
 
-        self.add_constraints_from_two_lists_of_points(list_of_points_1=self.list_of_points,
-                                                      list_of_points_2=self.list_of_points,
-                                                      constraint_name="smoothness",
-                                                      set_class_constraint_i_j=self.set_smoothness_i_j,
-                                                      )
+        # With L == np.inf, the class implies no constraint (see the message printed by the constructor).
+        if self.L != np.inf:
+            self.add_constraints_from_two_lists_of_points(list_of_points_1=self.list_of_points,
+                                                          list_of_points_2=self.list_of_points,
+                                                          constraint_name="smoothness",
+                                                          set_class_constraint_i_j=self.set_smoothness_i_j,
+                                                          )
